@@ -8,6 +8,7 @@ package c01
 
 import (
 	"fmt"
+	"math"
 	"math/big"
 
 	"github.com/tuneinsight/lattigo/v6/ring"
@@ -155,18 +156,30 @@ func cases(tier string, seed int64) []eng.Case {
 	var out []eng.Case
 	logNs := []int{3, 4, 5, 6, 8}
 	if tier == "thorough" {
-		logNs = []int{3, 4, 5, 6, 7, 8, 10}
+		logNs = []int{3, 4, 5, 6, 7, 8, 9, 10, 11}
+	}
+	reps := 1
+	if tier == "thorough" {
+		reps = 6
 	}
 	add := func(rc ringCfg, kind string) {
-		id := fmt.Sprintf("%s/%s/logN%d/b%v/pos%d", kind, rc.Type, rc.LogN, rc.Bits, rc.Pos)
-		cfg := rc
-		switch kind {
-		case "vec":
-			out = append(out, eng.Case{ID: id, Sig: "C01|vec", Desc: cfg, Run: func(c *eng.Ctx) { runVec(c, cfg) }})
-		case "ntt":
-			out = append(out, eng.Case{ID: id, Sig: "C01|ntt", Desc: cfg, Run: func(c *eng.Ctx) { runNTT(c, cfg) }})
-		case "ring":
-			out = append(out, eng.Case{ID: id, Sig: "C01|ring", Desc: cfg, Run: func(c *eng.Ctx) { runRing(c, cfg) }})
+		for rep := 0; rep < reps; rep++ {
+			id := fmt.Sprintf("%s/%s/logN%d/b%v/pos%d", kind, rc.Type, rc.LogN, rc.Bits, rc.Pos)
+			if rep > 0 {
+				if kind == "ring" {
+					break
+				}
+				id += fmt.Sprintf("/rep%d", rep)
+			}
+			cfg := rc
+			switch kind {
+			case "vec":
+				out = append(out, eng.Case{ID: id, Sig: "C01|vec", Desc: cfg, Run: func(c *eng.Ctx) { runVec(c, cfg) }})
+			case "ntt":
+				out = append(out, eng.Case{ID: id, Sig: "C01|ntt", Desc: cfg, Run: func(c *eng.Ctx) { runNTT(c, cfg) }})
+			case "ring":
+				out = append(out, eng.Case{ID: id, Sig: "C01|ring", Desc: cfg, Run: func(c *eng.Ctx) { runRing(c, cfg) }})
+			}
 		}
 	}
 	// 1. single-modulus configurations: every bit size x every position x ring type, small N (vec + ntt)
@@ -200,7 +213,7 @@ func cases(tier string, seed int64) []eng.Case {
 	// 2. multi-modulus rings (Ring and ringqp.Ring level handling, scalars, monomials, automorphisms)
 	nmulti := 24
 	if tier == "thorough" {
-		nmulti = 160
+		nmulti = 1500
 	}
 	for i := 0; i < nmulti; i++ {
 		typ := eng.Pick(r, "std", "std", "ci")
@@ -226,7 +239,7 @@ func cases(tier string, seed int64) []eng.Case {
 func init() {
 	eng.Register(&eng.Monitor{
 		ID: "C01", Level: "exploration",
-		Rule: "cases = (kind, ring type, logN, prime bit sizes, prime position in its size class); inside a case every table operation x input pattern x extreme-lane placement is evaluated against the exact model. distinct key = (op, ring type, logN, bit size, position, pattern, lane); non-trivial = the input contains an extreme value of the documented domain (q-1, 2q-1, 2^64-1, top of lazy range) or the op is lazy/accumulating or the case is an NTT/automorphism/monomial identity.",
+		Rule:  "cases = (kind, ring type, logN, prime bit sizes, prime position in its size class); inside a case every table operation x input pattern x extreme-lane placement is evaluated against the exact model. distinct key = (op, ring type, logN, bit size, position, pattern, lane); non-trivial = the input contains an extreme value of the documented domain (q-1, 2q-1, 2^64-1, top of lazy range) or the op is lazy/accumulating or the case is an NTT/automorphism/monomial identity.",
 		Cases: cases,
 		Assumptions: []string{
 			"model arithmetic (bits.Mul64/Div64, math/big) is correct",
@@ -451,7 +464,7 @@ func runNTT(c *eng.Ctx, rc ringCfg) {
 				})
 			}
 			// convolution: INTT(NTT(a) . NTT(b)) == a*b (naive)
-			if n <= 256 {
+			if n <= 1024 {
 				prod := make([]uint64, n)
 				mb := make([]uint64, n)
 				s.MForm(nb, mb)
@@ -501,6 +514,14 @@ func runNTT(c *eng.Ctx, rc ringCfg) {
 			gs = append(gs, (rnd.U64()%nth)|1)
 		}
 	}
+	// the same group elements given by representatives that are not reduced modulo 2N (X -> X^g only depends
+	// on g mod 2N; unreduced products such as 5^k or g1*g2 are natural arguments)
+	ng := len(gs)
+	for i := 0; i < 6; i++ {
+		g := gs[rnd.N(ng)]
+		k := []uint64{1, 2, 3, 1 + rnd.U64()%(1<<20), (math.MaxUint64-g)/nth - rnd.U64()%4, rnd.U64() % ((math.MaxUint64 - g) / nth)}[i]
+		gs = append(gs, g+k*nth)
+	}
 	for _, g := range gs {
 		pat := eng.Pick(rnd, gen.PatUniform, gen.PatTop, gen.PatOneHot, gen.PatLaneTop)
 		a := gen.Vec(rnd, n, q-1, pat, rnd.N(n))
@@ -508,6 +529,9 @@ func runNTT(c *eng.Ctx, rc ringCfg) {
 		po := r.NewPoly()
 		want := modelAut(rc.Type, a, g, q)
 		c.Distinct(fmt.Sprintf("aut/%s/%d/%d/%d/%d", rc.Type, rc.LogN, rc.Bits[0], rc.Pos, g), true)
+		if g >= nth {
+			c.Count("automorphisms_with_unreduced_galois_element", 1)
+		}
 		if c.Try("C01|Ring.Automorphism", func() { r.Automorphism(pa, g, po) }) {
 			c.Check(eqv(reduceAll(po.Coeffs[0], q), want) && maxv(po.Coeffs[0]) <= q, "C01|Ring.Automorphism|wrong-value", func() string {
 				return fmt.Sprintf("q=%d N=%d type=%s g=%d a=%s got=%s want=%s", q, n, rc.Type, g, eng.U64s(a, 8), eng.U64s(po.Coeffs[0], 8), eng.U64s(want, 8))
